@@ -165,6 +165,8 @@ def show(t, depth=0) -> str:
             return "partial(%s, %s)" % (show(t[1], d), ", ".join(show(x, d) for x in t[2]))
         if h in ("comp", "opaque"):
             return "<%s>" % t[1]
+        if h == "fstr":
+            return "f'" + "".join(x[1] if x[0] == "const" and isinstance(x[1], str) else "{%s}" % show(x, d) for x in t[1:]) + "'"
         if h == "kw":
             return "%s=%s" % (t[1], show(t[2], d))
         if h == "star":
